@@ -381,6 +381,43 @@ def pool_obligation():
     return bw, bu, ps, ok2
 
 
+def wait_obligation():
+    """Per-run T2 obligation of C17 (the waiting discipline Pool/Progress.v is proved about). Returns (offending call sites, offending acquisitions, table_ok, lemmas_ok)."""
+    path = os.path.join(GEN, "cases_poolwait.v")
+    open(path, "w").write("From Coq Require Import String List Bool.\nFrom GV Require Import Race.Checker.\nFrom GVgen Require Import Gen_Locks.\nImport ListNotations.\n"
+                          "Definition BW := Eval vm_compute in map (fun c => (cs_caller c, cs_callee c, cs_held c)) (bad_waits gen_poolcalls).\nPrint BW.\n"
+                          "Definition BA := Eval vm_compute in map (fun q => (q_fn q, q_lock q, q_held q)) (bad_acqs gen_poolcalls gen_poolacqs).\nPrint BA.\n"
+                          "Definition NE := Eval vm_compute in wait_table_nonempty gen_poolcalls.\nPrint NE.\n")
+    ok, out, err = coqc(os.path.join("gen", "cases_poolwait.v"))
+    if not ok:
+        raise HarnessError("coqc failed on the pool wait-discipline file: " + (out + err)[-2000:])
+    flat = re.sub(r"\s+", " ", out)
+    grp = lambda name: re.search(name + r" = (.*?) : ", flat).group(1)
+    triples = lambda txt: [tuple(re.findall(r'"([^"]*)"', t)) for t in re.findall(r"\(([^()]*\[[^\]]*\])\)", txt)]
+    bw, ba = triples(grp("BW")), triples(grp("BA"))
+    ne = "true" in grp("NE")
+    ok2, out2, err2 = coqc(os.path.join("obligations", "GenWaitOk.v"))
+    return bw, ba, ne, ok2
+
+
+def wait_report(run, pid, found_concrete):
+    bw, ba, ne, ok2 = wait_obligation()
+    bad = bool(bw or ba or not ne or not ok2)
+    if bad and not found_concrete:
+        what = []
+        if bw:
+            what.append("a function that may wait for an instance or for the rules is called with a mutex of the pool held: %s" % "; ".join("%s -> %s holding %s" % (t[0], t[1], list(t[2:])) for t in bw[:4]))
+        if ba:
+            what.append("a mutex is acquired out of order or inside a read section: %s" % "; ".join("%s takes %s holding %s" % (t[0], t[1], list(t[2:])) for t in ba[:4]))
+        if not ne:
+            what.append("the call table no longer mentions getGengine / the engine's Execute*")
+        run.report({"kind": "obligation", "symptom": "wait-discipline", "calls": [list(t) for t in bw[:6]], "acquisitions": [list(t) for t in ba[:6]]},
+                   {"obligation": "obligations/GenWaitOk.v: wait_ok gen_poolcalls = true, order_ok gen_poolcalls gen_poolacqs = true (the system Pool/Progress.v's progress theorem is about)",
+                    "offending_calls": bw, "offending_acquisitions": ba, "searched": "the waiter and update scenarios of this run"},
+                   "%s: engine/gengine_pool.go no longer follows the waiting discipline the progress theorem is proved for (%s), and no request was observed stuck" % (pid, " | ".join(what) or "GenWaitOk.v does not compile"), no_input=True)
+    return bad
+
+
 def shape_report(run, pid, which, found_concrete):
     """which: 'wrappers' or 'updates'. Reports a broken T3 obligation when no concrete failing history was found."""
     bw, bu, ps, ok2 = pool_obligation()
